@@ -132,22 +132,8 @@ class Nullness:
 
     @staticmethod
     def _arg_for(call, g, p, t):
-        params = g.params
-        if t.detail in ("bound", "ctor", "call") and params:
-            params = params[1:]
-        for kw in call.keywords:
-            if kw.arg == p:
-                return kw.value
-            if kw.arg is None:
-                return "unknown"
-        if p in params:
-            i = params.index(p)
-            if i < len(call.args):
-                for a in call.args[: i + 1]:
-                    if isinstance(a, ast.Starred):
-                        return "unknown"
-                return call.args[i]
-        return None
+        from .valueflow import arg_for
+        return arg_for(call, g, p, t.detail)
 
     def expr_maybe_none(self, e, f, depth=0):
         if isinstance(e, ast.Constant):
